@@ -418,6 +418,9 @@ def rule_indep(ctx):
             cand = e.value.lin
             t = cand.single_term()
             oldt = e.old
+            if oldt is not None and cand == Lin.term(oldt):
+                res.append((True, "the register keeps its own value on this path (no update)", fact_strs(e)))
+                continue
             if t is not None and t[0] == "max" and oldt is not None:
                 mm = w.P.minmax.get(t)
                 if mm and mm[1] == Lin.term(oldt):
